@@ -54,6 +54,7 @@ extern "C" CK_RV vp_encrypt1(void) { SETUP; CK_RV rv = hsm->C_Encrypt(SES(HSESSI
 bool AsymmetricAlgorithm::decrypt(PrivateKey*, const ByteString& d, ByteString& data, const AsymMech::Type m) { rec(d, (int)m, 0); return produce(data); }
 extern "C" CK_RV vp_decrypt1(void) { SETUP; CK_RV rv = hsm->C_Decrypt(SES(HSESSION), &data[0], IN(datalen), pOut, pLen); FINISH; }
 extern "C" CK_RV vp_signfinal1(void) { SETUP; CK_RV rv = hsm->C_SignFinal(SES(HSESSION), pOut, pLen); FINISH; }
+extern "C" CK_RV vp_digestfinal1(void) { SETUP; CK_RV rv = hsm->C_DigestFinal(SES(HSESSION), pOut, pLen); FINISH; }
 extern "C" CK_RV vp_digest1(void) { SETUP; CK_RV rv = hsm->C_Digest(SES(HSESSION), &data[0], IN(datalen), pOut, pLen); FINISH; }
 extern "C" CK_RV vp_verify1(void)
 {
